@@ -146,7 +146,7 @@ def CommentOK (text : List Char) (c : Comment) : Prop :=
   isComment c.type = true ∧
   c.lexpos + c.value.length ≤ text.length ∧
   slice text c.lexpos (c.lexpos + c.value.length) = c.value ∧
-  ∃ s r, FirstMatch (rulesOf s) (text.drop c.lexpos) r c.value.length ∧ c.type = ruleType r c.value
+  ∃ s r, FirstMatch (rulesOf s) (text.drop c.lexpos) r c.value.length ∧ ∃ ap, c.type = ruleFn ap r c.value
 
 /-- the pending comments are comment tokens of the source, lie before the read position, in source order, disjoint -/
 def HidInv (text : List Char) (lexpos : Nat) (hid : List Comment) : Prop :=
@@ -177,7 +177,7 @@ theorem rawStep_comment {st : LexState} {t : Token} {st1 : LexState} (h : RawSte
     CommentOK st.text t.toComment ∧ st.lexpos ≤ t.lexpos ∧ st1.lexpos = t.lexpos + t.value.length := by
   obtain ⟨_, s, raw, st0, hraw, hp, hcase⟩ := h
   rcases hcase with rfl | ⟨_, hty, _⟩
-  · refine ⟨⟨hc, hraw.bound, hraw.val, s, hraw.rule⟩, hraw.le, ?_⟩
+  · refine ⟨⟨hc, hraw.bound, hraw.val, s, (let ⟨r, h1, h2⟩ := hraw.rule; ⟨r, h1, _, h2⟩)⟩, hraw.le, ?_⟩
     rw [hp.1, hraw.lexpos]
   · rw [hty, autosemi_not_comment] at hc
     cases hc
